@@ -322,3 +322,72 @@ for _k in range(8):
         body_alias_history(_k, 0)
     except Exception:
         pass
+
+
+# ------------------------------------------------------------------ member order after type-variable substitution
+
+_TU = t.TypeVar('_TU')
+
+
+class GU(PaneBase, t.Generic[_TU]):
+    """unions that contain the type variable: substitution flattens them, keeping the FIRST occurrence of a repeated member"""
+    f: t.Union[float, _TU] = 0.0
+    g: t.Union[complex, _TU, None] = None
+    h: t.Union[_TU, str] = ''
+    l: t.List[t.Union[float, _TU]] = field(default_factory=list)
+
+
+GU_INST = (GU[t.Union[int, float]], GU[t.Union[int, str]], GU[t.Optional[t.Union[float, complex]]], GU[int])
+# the flattened member order, written by hand
+GU_MEMBERS = (
+    dict(f=(float, int), g=(complex, int, float, NoneT), h=(int, float, str), l=(float, int)),
+    dict(f=(float, int, str), g=(complex, int, str, NoneT), h=(int, str), l=(float, int, str)),
+    dict(f=(float, complex, NoneT), g=(complex, float, NoneT), h=(float, complex, NoneT, str), l=(float, complex, NoneT)),
+    dict(f=(float, int), g=(complex, int, NoneT), h=(int, str), l=(float, int)),
+)
+for _c in GU_INST:
+    make_converter(_c)
+GU_MCONV = {ty: make_converter(ty) for ty in (float, int, str, complex, NoneT)}
+
+
+@obligation(pre="0 <= gi <= 3 and 0 <= fsel <= 3 and 0 <= k <= 4", witnesses=(0, -1), timeout=200)
+def body_substituted_union(gi: int, fsel: int, k: int, i: int) -> int:
+    """a union that mentions a type variable, after substitution by a union sharing members with it: still the left-most accepting member of the FLATTENED declaration order"""
+    cls = GU_INST[0] if gi == 0 else (GU_INST[1] if gi == 1 else (GU_INST[2] if gi == 2 else GU_INST[3]))
+    mem = GU_MEMBERS[0] if gi == 0 else (GU_MEMBERS[1] if gi == 1 else (GU_MEMBERS[2] if gi == 2 else GU_MEMBERS[3]))
+    fname = 'f' if fsel == 0 else ('g' if fsel == 1 else ('h' if fsel == 2 else 'l'))
+    from hlib import lf as _lf
+    v = _lf(k, i, 'ab', True)
+    expected = None
+    found = False
+    for ty in mem[fname]:
+        ok, r = _try(GU_MCONV[ty], v)
+        if ok and not found:
+            found = True
+            expected = r
+    try:
+        x = cls.from_data({fname: [v] if fname == 'l' else v})
+        got = getattr(x, fname)
+        if fname == 'l':
+            got = got[0]
+        ok = True
+    except pane.ConvertError:
+        ok = False
+    except Exception as e:
+        if crosshair_exc(e):
+            raise
+        return 10
+    if ok != found:
+        return 1 if ok else 2
+    if ok and not eqv(got, expected):
+        return 4
+    return 0 if ok else -1
+
+
+for _g in range(4):
+    for _f in range(4):
+        for _k in range(5):
+            try:
+                body_substituted_union(_g, _f, _k, 1)
+            except Exception:
+                pass
